@@ -19,7 +19,9 @@ RULE = (
     "process); configurations in which a frame size is in force: FLAT logical type + frame_size, explicit "
     "FlatTriples/FlatQuadsFrameFlow(frame_size), and frame_size with the logical type left UNSPECIFIED; entry points "
     "flat_stream_to_frames and stream_frames of both integrations (TRIPLES, QUADS) and GraphStream.graph() driven with a "
-    "triple iterator; the consumer takes frames one by one. Oracle: at every pull i >= 2 fewer than frame_size rows are "
+    "triple iterator; the consumer takes frames one by one; plus flat_stream_to_file writing to a BytesIO or to a raw "
+    "unbuffered stream (at every pull fewer than frame_size of the statements handed over may be missing from what has "
+    "reached that output). Oracle: at every pull i >= 2 fewer than frame_size rows are "
     "pending; when frame f is handed over, frames 1..f decode (reference decoder, prefix mode) to exactly the statements "
     "pulled so far. parse: every delimited stream is delivered up to the end of frame j, for EVERY j, by a raw source (and "
     "by a BufferedReader over it) that raises Stall when asked for an undelivered byte; items obtained before Stall must "
@@ -53,7 +55,7 @@ def write_case(draw):
         stmts = [[*s[:3], names[min(i // per, k - 1)]] for i, s in enumerate(stmts)]
         entry = "graph"
     else:
-        entry = draw(st.sampled_from(["flat_stream_to_frames", "stream_frames"]))
+        entry = draw(st.sampled_from(["flat_stream_to_frames", "stream_frames", "flat_stream_to_file"]))
     if integration == "generic" and draw(st.integers(0, 3)) == 0:
         # "fat" statements: quoted triples whose IRIs are all new (fresh namespace and name each), so that one statement
         # contributes 10..30 rows - more than any fixed small per-statement estimate
@@ -73,13 +75,14 @@ def write_case(draw):
             fat.append(st3 + stmts[i][3:])
         stmts = fat
     how = draw(st.sampled_from(["flat_logical", "explicit_flow", "unspecified_logical"]))
-    if entry == "flat_stream_to_frames" and how == "explicit_flow" and draw(st.booleans()):
+    if entry in ("flat_stream_to_frames", "flat_stream_to_file") and how == "explicit_flow" and draw(st.booleans()):
         how = "flat_logical"
     flat = 1 if phys == "TRIPLES" else 2
     case = {"kind": "write", "integration": integration, "phys": phys, "entry": entry, "how": how,
             "frame_size": draw(st.sampled_from([1, 2, 3, 4, 5, 7, 11, 16, 40])), "statements": stmts, "delimited": True,
             "preset": draw(gen.preset_for(stmts)),
             "params": {"generalized": integration == "generic", "rdf_star": integration == "generic", "stream_name": ""}}
+    case["output"] = draw(st.sampled_from(["bytesio", "raw"]))
     case["logical"] = 0 if how == "unspecified_logical" else flat
     if how == "explicit_flow":
         case["flow"] = "FlatTriplesFrameFlow" if phys == "TRIPLES" else "FlatQuadsFrameFlow"
@@ -109,7 +112,78 @@ class Capture:
         streams.Stream.__init__ = self._orig
 
 
+class RecordingRaw(io.RawIOBase):
+    """The caller's unbuffered output (a raw file, a socket): takes everything it is handed, remembers it."""
+
+    def __init__(self):
+        super().__init__()
+        self.got = bytearray()
+
+    def writable(self):
+        return True
+
+    def write(self, b):
+        self.got += bytes(b)
+        return len(b)
+
+    def getvalue(self):
+        return bytes(self.got)
+
+
+def body_write_to_file(case, acc):
+    """flat_stream_to_file: what has reached the caller's output when statement i is asked for. Every statement not yet
+    delivered holds at least one row in some buffer, so fewer than frame_size statements may be outstanding."""
+    integ = case["integration"]
+    stmts = case["statements"]
+    objs = pyj.conv_stmts(stmts, integ)
+    fs = case["frame_size"]
+    out = RecordingRaw() if case.get("output") == "raw" else io.BytesIO()
+    delivered_at_pull = []
+
+    def source():
+        for o in objs:
+            delivered_at_pull.append(out.getvalue())
+            yield o
+
+    if integ == "generic":
+        from pyjelly.integrations.generic import serialize as ser
+    else:
+        from pyjelly.integrations.rdflib import serialize as ser
+    try:
+        ser.flat_stream_to_file(source(), out, options=pyj.make_options(case))
+    except Exception as exc:  # noqa: BLE001
+        return Violation(f"C11:write-raises:{type(exc).__name__}", f"flat_stream_to_file raised {exc!r}", case)
+    conv = (lambda t: T.norm(t)) if integ == "generic" else (lambda t: T.norm(T.rdflib_canon(t)))
+    want = [[list(conv(t)) for t in s_] for s_ in stmts]
+    res = jellyref.decode(out.getvalue(), True, "strict")
+    if res.error is not None or [[list(T.norm(t)) for t in s_] for s_ in res.statements] != want:
+        return Violation("C11:write-final-differs", f"complete output does not decode to the input ({res.error})", case)
+    if acc is not None:
+        n_frames = len(res.frame_events)
+        acc.case(case, n_frames >= 3, ["how_" + case["how"], "entry_flat_stream_to_file", "integration_" + integ,
+                                        "phys_" + case["phys"], "output_" + str(case.get("output"))]
+                 + (["frames_ge_3"] if n_frames >= 3 else []))
+    for i, data in enumerate(delivered_at_pull, 1):
+        if i < 2:
+            continue
+        got = []
+        if data:
+            pre = jellyref.decode(data, True, "prefix")
+            if pre.error is not None:
+                return Violation("C11:write-invalid-prefix", f"bytes delivered before pull {i} are not decodable: {pre.error}", case)
+            got = [[list(T.norm(t)) for t in s_] for s_ in pre.statements]
+        if got != want[:len(got)]:
+            return Violation("C11:write-frame-out-of-step", f"bytes delivered before pull {i} are not a prefix of the input", case)
+        if (i - 1) - len(got) >= fs:
+            return Violation("C11:write-unbounded-buffering", f"asking for statement {i} while only {len(got)} of the {i - 1} "
+                             f"statements handed over have reached the output ({case.get('output')}), frame_size={fs} "
+                             f"(how={case['how']}, entry=flat_stream_to_file)", case)
+    return None
+
+
 def body_write(case, acc):
+    if case["entry"] == "flat_stream_to_file":
+        return body_write_to_file(case, acc)
     integ = case["integration"]
     stmts = case["statements"]
     objs = pyj.conv_stmts(stmts, integ)
